@@ -22,6 +22,10 @@ def parsers():
     _P['skip'] = LLParser(TOK, span_matchers=SPANS, productions={
         'E': [('ITEM', 'E'), None], 'ITEM': [('WORD', 'MODS'), ('NUM',), ('CMT',), ('STR',)], 'MODS': [('OPT', 'OPT2')], 'OPT': [('NUM',), None],
         'OPT2': [('STR',), None]})
+    # backtracking: the non-empty alternative of the nullable LABEL starts with the token that follows LABEL
+    _P['back'] = LLParser(TOK, span_matchers=SPANS, productions={
+        'E': [('STMT', 'E'), None], 'STMT': [('LABEL', 'WORD', 'TAIL'), ('NUM',), ('CMT',), ('STR',)],
+        'LABEL': [('WORD', 'NUM'), ('WORD', 'STR', 'NUM'), None], 'TAIL': [('STR',), None]})
     _P['all'] = LLParser(TOK, span_matchers=SPANS, skip_tokens=set(), productions={
         'E': [('ITEM', 'E'), None], 'ITEM': [('WORD',), ('NUM',), ('CMT',), ('SPACE',), ('STR',)]})
     return _P
@@ -51,8 +55,8 @@ def observe(job):
     p = parsers()[which]
     strs = [''.join(chr(c) for c in ln) for ln in lines]
     text = list(strs) if aslist else '\n'.join(strs)
-    case = {'lines': lines, 'aslist': aslist, 'skip': ['SPACE'] if which == 'skip' else [], 'outcome': 'ok', 'errline': 0,
-            'leaves': [], 'nodes': []}
+    case = {'lines': lines, 'aslist': aslist, 'skip': ['SPACE'] if which != 'all' else [], 'outcome': 'ok', 'errline': 0,
+            'leaves': [], 'nodes': [], 'grammar': which}
     try:
         root = p.parse(text, do_cleanup=False)
     except LexicalError as e:
@@ -101,7 +105,7 @@ def judge(ctx, cases):
         path = os.path.join(ctx.tmp, 'c04_%d.ndjson' % off)
         with open(path, 'w') as f:
             for c in part:
-                f.write(json.dumps({k: v for k, v in c.items()}) + '\n')
+                f.write(json.dumps({k: v for k, v in c.items() if k != 'grammar'}) + '\n')
         r = ctx.tlc('llparser/LLTokenizer.tla', 'SPECIFICATION Spec\nCHECK_DEADLOCK FALSE\nINVARIANT Adjacent\nINVARIANT Monotone\n',
                     env={'CASES': path}, workers=16, timeout=3600, heap='12g')
         os.unlink(path)
@@ -137,10 +141,11 @@ def run(ctx):
         jobs.append((t, True, 'all' if i % 2 else 'skip'))
         if i % 3 == 0:
             jobs.append((t, False, 'all'))
+        jobs.append((t, bool(i % 2), 'back'))
     cases = pmap(observe, jobs)
     for c in cases:
         if c['outcome'].startswith('exc:'):
-            ctx.violation({'lines': c['lines'], 'aslist': c['aslist'], 'skip': c['skip']}, 'parse raised %s' % c['outcome'][4:])
+            ctx.violation({'lines': c['lines'], 'aslist': c['aslist'], 'skip': c['skip'], 'grammar': c['grammar']}, 'parse raised %s' % c['outcome'][4:])
     cases = [c for c in cases if not c['outcome'].startswith('exc:')]
     # synthetic self-tests
     base = {'lines': [cps('ab 1'), cps(' b')], 'aslist': False, 'skip': ['SPACE'], 'outcome': 'ok', 'errline': 0,
@@ -164,9 +169,9 @@ def run(ctx):
         if v != 'ACCEPT':
             c = cases[i - 1]
             strs = [''.join(chr(x) for x in ln) for ln in c['lines']]
-            ctx.violation({'lines': c['lines'], 'aslist': c['aslist'], 'skip': c['skip']},
-                          'text %r (%s, skip=%s): %s; leaves %s; nodes %s' % (
-                              strs, 'list of lines' if c['aslist'] else 'str', c['skip'], v,
+            ctx.violation({'lines': c['lines'], 'aslist': c['aslist'], 'skip': c['skip'], 'grammar': c['grammar']},
+                          'text %r (%s, skip=%s, grammar %s): %s; leaves %s; nodes %s' % (
+                              strs, 'list of lines' if c['aslist'] else 'str', c['skip'], c['grammar'], v,
                               [(l['n'], tuple(l['s'])) for l in c['leaves']], [(nd.get('name'), tuple(nd['s'])) for nd in c['nodes']][:6]),
                           _tags(c, v))
     ctx.traces = n
@@ -180,7 +185,7 @@ def run(ctx):
 
 
 def replay(ctx, case):
-    which = 'skip' if case['skip'] else 'all'
+    which = case.get('grammar') or ('skip' if case['skip'] else 'all')
     c = observe((case['lines'], case['aslist'], which))
     if c['outcome'].startswith('exc:'):
         return c['outcome']
